@@ -62,8 +62,18 @@ func VH_c02_server_history() {
 func VH_c02_server_sources() {
 	fams := []bgp.Family{bgp.RF_IPv4_UC}
 	s := vServer(65000, fams)
-	ca, cb := vNeighbor(2, 65001, 65000, fams), vNeighbor(3, 65002, 65000, fams)
+	asB := uint32(65002)
+	parallel := vBool("parallel_links_to_one_router")
+	if parallel {
+		asB = 65001
+	}
+	ca, cb := vNeighbor(2, 65001, 65000, fams), vNeighbor(3, asB, 65000, fams)
 	src := []*peer{vEstablished(s, ca, fams), vEstablished(s, cb, fams)}
+	if parallel { // same router id on both sessions: they are still two sources
+		ib := *src[1].peerInfo.Load()
+		ib.ID = src[0].peerInfo.Load().ID
+		src[1].peerInfo.Store(&ib)
+	}
 	confs := []*oc.Neighbor{ca, cb}
 	prefix := vPrefix4(10, 1, 0, 0, 16)
 	var up, has, looped [2]bool
@@ -77,7 +87,11 @@ func VH_c02_server_sources() {
 			l := 1 + vChoice("aspath_len", 2)
 			x := vU32("as") // the local AS here makes the route unusable (loop), still stored in the Adj-RIB-In
 			vAssume(x != 0)
-			aspath := []uint32{uint32(65001 + k), x}[:l]
+			first := uint32(65001 + k)
+			if parallel {
+				first = 65001
+			}
+			aspath := []uint32{first, x}[:l]
 			vRecv(s, src[k], vUpdate4(prefix, false, aspath, vAddr4(10, 0, 0, byte(2+k))), int64(10+i))
 			if up[k] {
 				has[k], lastLen[k], looped[k] = true, l, l == 2 && x == 65000
@@ -225,5 +239,16 @@ func VH_c02_api_delete() {
 	loc := s.globalRib.GetPathList(table.GLOBAL_RIB_NAME, 0, fams)
 	vAssert(len(loc) == 1 && !loc[0].IsLocal() && loc[0].GetSource().Address == vAddr4(10, 0, 0, 2), "deleting an API route removed (or left) the wrong route: the peer's un-withdrawn route must be the only one left")
 	vAssert(a.adjRibIn.Count(fams) == 1 && a.adjRibIn.Accepted(fams) == 1, "the peer's Adj-RIB-In changed when an API route was deleted")
+	// the table summary agrees with the content, also for a prefix that was added and deleted
+	other := vPrefix4(10, 2, 0, 0, 16)
+	r2, err := s.AddPath(apiutil.AddPathRequest{Paths: []*apiutil.Path{{Family: bgp.RF_IPv4_UC, Nlri: other, Attrs: apiPath.Attrs}}})
+	vAssert(err == nil && len(r2) == 1, "a second API route is refused")
+	if err == nil && len(r2) == 1 {
+		vAssert(s.DeletePath(apiutil.DeletePathRequest{UUIDs: []uuidT{r2[0].UUID}}) == nil, "the second API route cannot be deleted")
+	}
+	if tbl, ok := s.globalRib.GetTable(bgp.RF_IPv4_UC); ok {
+		info := tbl.Info()
+		vAssert(info.NumDestination == 1 && info.NumPath == 1, "the table summary disagrees with the Loc-RIB content (it counts a destination without routes, or misses one)")
+	}
 	vReach("end")
 }
